@@ -27,7 +27,30 @@ fn gen_string(r: &mut Rng, out: &mut Out) -> String {
     let port = |r: &mut Rng| *r.pick(&[0u64, 1, 80, 443, 8080, 65535, 65536, 99999, 3000]);
     let v6s = ["::1", "::", "fe80::1", "2001:db8::ff00:42:8329", "::ffff:127.0.0.1", "1:2:3:4:5:6:7:8", "1:2:3:4:5:6:7:8:9", "fe80::1%eth0", "g::1"];
     let hosts = ["localhost", "example.com", "my-host.local", "a", "ws", "127.0.0.1.nip.io"];
-    match r.below(14) {
+    match r.below(17) {
+        14 => {
+            // random IPv6 socket address, fully expanded (the longest textual forms)
+            out.count("gen_v6_expanded");
+            let seg: Vec<String> = (0..8).map(|_| format!("{:x}", if r.chance(1, 3) { 0xffff } else { r.below(0x10000) })).collect();
+            let scope = if r.chance(1, 2) { format!("%{}", r.pick(&[1u64, 7, 4294967295, 12345])) } else { String::new() };
+            format!("[{}{}]:{}", seg.join(":"), scope, r.pick(&[0u64, 80, 65535, 10000]))
+        }
+        15 => {
+            // IPv4-embedded IPv6 (up to 53 characters with the port)
+            out.count("gen_v6_embedded_v4");
+            let seg: Vec<String> = (0..6).map(|_| format!("{:x}", if r.chance(1, 2) { 0xffff } else { r.below(0x10000) })).collect();
+            format!("[{}:{}]:{}", seg.join(":"), v4(r), r.pick(&[65535u64, 443, 10000]))
+        }
+        16 => {
+            // Display of a random socket address value (always valid, canonical text)
+            out.count("gen_display_of_value");
+            if r.chance(1, 2) {
+                SocketAddr::V4(SocketAddrV4::new(Ipv4Addr::from(r.next() as u32), r.next() as u16)).to_string()
+            } else {
+                let ip = Ipv6Addr::from((r.next() as u128) << 64 | r.next() as u128);
+                SocketAddr::V6(SocketAddrV6::new(ip, r.next() as u16, 0, if r.chance(1, 2) { r.below(100) as u32 } else { 0 })).to_string()
+            }
+        }
         0 => { out.count("gen_v4_valid"); format!("{}:{}", v4(r), r.below(65536)) }
         1 => { out.count("gen_v4_port_boundary"); format!("{}:{}", v4(r), port(r)) }
         2 => { out.count("gen_v6_bracket"); format!("[{}]:{}", r.pick(&v6s), port(r)) }
@@ -97,7 +120,7 @@ pub fn run(a: &Args) {
             };
             let via_ra = via_sa.to_remote_addr().unwrap();
             if via_v != via_sa || via_ra != via_sa || via_sa != RemoteAddr::Socket(p) {
-                out.violation(&format!("socket-address conversion not lossless for {}", p));
+                out.violation(&format!("socket-address conversion not lossless for {}: SocketAddr -> {:?}, V4/V6 -> {:?}, RemoteAddr -> {:?}", p, via_sa, via_v, via_ra));
             }
             out.case(&format!("addr {}", hex(p.to_string().as_bytes())), &l2);
             out.count("addr_cases");
@@ -113,6 +136,13 @@ pub fn run(a: &Args) {
     if a.replay.is_none() {
         for p in extra {
             let via = p.to_remote_addr().unwrap();
+            let via_v = match p {
+                SocketAddr::V4(v) => v.to_remote_addr().unwrap(),
+                SocketAddr::V6(v) => v.to_remote_addr().unwrap(),
+            };
+            if via_v != RemoteAddr::Socket(p) {
+                out.violation(&format!("SocketAddrV4/V6 conversion not lossless for {:?}: {:?}", p, via_v));
+            }
             if via != RemoteAddr::Socket(p) || *via.socket_addr() != p {
                 out.violation(&format!("socket-address conversion not lossless for {:?}", p));
             }
